@@ -32,6 +32,10 @@ type OverMsg struct {
 	// only the memory clause (and error reporting) is judged.  ReadMsg reads it
 	// with ReadMessage instead of NextReader+Read.
 	ReadMsg bool `json:"read_msg,omitempty"`
+	// Compressed (only with negotiated compression and at least one frame
+	// before the crossing frame): the message is a compressed one (RSV1); the
+	// frames before the crossing frame carry a stored-block deflate stream.
+	Compressed bool `json:"compressed,omitempty"`
 }
 
 // LimitCase exercises SetReadLimit.
@@ -140,6 +144,7 @@ func genLimitCase(t *rapid.T) LimitCase {
 		o.ReadMsg = rapid.Bool().Draw(t, "oreadmsg")
 		o.Present = rapid.SampledFrom([]string{"all", "part", "none", "none"}).Draw(t, "opresent")
 		o.PartN = rapid.IntRange(1, 40).Draw(t, "opartn")
+		o.Compressed = rapid.IntRange(0, 2).Draw(t, "ocompressed") == 0
 		o.Ping = rapid.Bool().Draw(t, "oping")
 		c.Over = o
 	}
@@ -212,18 +217,35 @@ func checkC06(c LimitCase, o *Obs) error {
 			fi++
 			wire = wsref.AppendFrame(wire, f)
 		}
+		overCompressed := ov.Compressed && c.R.Compress && len(ov.Pre) > 0 && ov.Kind != "withinbig"
+		var deflated []byte
+		if overCompressed {
+			// an incompressible-looking payload in stored blocks: long enough to
+			// fill every frame before the crossing frame, never finished
+			plain := fill(int(L)+64, 'C')
+			deflated = wsref.DeflateMessage(plain, []wsref.Seg{{Kind: "stored", Len: len(plain), Block: 7}}, false, 0)
+			overDelivered = plain
+		}
 		for i, a := range ov.Pre {
 			if sum+int64(a) > L {
 				a = int(L - sum)
 			}
 			p := fill(a, byte('A'+i))
+			if overCompressed {
+				p = deflated[sum : sum+int64(a)]
+			}
 			op := byte(wsref.OpCont)
 			if i == 0 {
 				op = ov.Op
 			}
-			mk(wsref.Frame{Fin: false, Opcode: op, Payload: p})
-			overDelivered = append(overDelivered, p...)
+			mk(wsref.Frame{Fin: false, Rsv1: overCompressed && i == 0, Opcode: op, Payload: p})
+			if !overCompressed {
+				overDelivered = append(overDelivered, p...)
+			}
 			sum += int64(a)
+		}
+		if overCompressed {
+			o.Class("over_limit_message_compressed")
 		}
 		if ov.Ping {
 			mk(wsref.Frame{Fin: true, Opcode: wsref.OpPing, Payload: []byte("inside-over")})
